@@ -47,9 +47,9 @@ func geoCheck(op string, v []float64) (fails bool, exp, got string) {
 		switch {
 		case math.IsNaN(d1) || d1 < 0 || d1 > piR+tolDist(piR):
 			return true, "0 <= distance <= half circumference", fmt.Sprint(d1)
-		case math.Abs(d1-d2) > tolDist(ref):
+		case !(math.Abs(d1-d2) <= tolDist(ref)): // (also true for NaN)
 			return true, "symmetric", fmt.Sprintf("%v vs %v", d1, d2)
-		case math.Abs(d1-ref) > tolDist(ref):
+		case !(math.Abs(d1-ref) <= tolDist(ref)):
 			return true, fmt.Sprintf("%.6f (vector formulation)", ref), fmt.Sprintf("%.6f", d1)
 		case latA == latB && lonA == lonB && d1 != 0:
 			return true, "0 for identical locations", fmt.Sprint(d1)
@@ -75,10 +75,10 @@ func geoCheck(op string, v []float64) (fails bool, exp, got string) {
 			return true, "latitude in [-90,90], longitude in [-180,180]", fmt.Sprintf("(%v,%v)", la, lo)
 		}
 		back := sphere.Dist(lat, lon, la, lo)
-		if math.Abs(back-d) > tolDist(d) {
+		if !(math.Abs(back-d) <= tolDist(d)) {
 			return true, fmt.Sprintf("distance back to the start = %v", d), fmt.Sprintf("%.6f (dest %v,%v)", back, la, lo)
 		}
-		if lib := geo.DistanceTo(lat, lon, la, lo); math.Abs(lib-d) > tolDist(d) {
+		if lib := geo.DistanceTo(lat, lon, la, lo); !(math.Abs(lib-d) <= tolDist(d)) { // NaN fails too
 			return true, fmt.Sprintf("DistanceTo(start, dest) = %v", d), fmt.Sprintf("%.6f", lib)
 		}
 		// bearing: d >= 1 m, away from the poles and the antipode
@@ -120,7 +120,7 @@ func geoCheck(op string, v []float64) (fails bool, exp, got string) {
 			return true, "idempotent", fmt.Sprintf("%v then %v", n1, n2)
 		}
 		h, hn := geo.DistanceToHaversine(d), geo.DistanceToHaversine(n1)
-		if math.Abs(h-hn) > 1e-9 {
+		if !(math.Abs(h-hn) <= 1e-9) {
 			return true, fmt.Sprintf("haversine unchanged (%v)", h), fmt.Sprint(hn)
 		}
 	case "semicircle":
@@ -176,7 +176,7 @@ func runC15(r *rt.Run) {
 	r.Bounds["longitudes"] = lons
 	r.Bounds["bearings"] = len(brgs)
 	r.Bounds["distances"] = dists
-	r.Rule = "full product of the listed alphabets: every ordered pair of locations (plus the exact antipode of every location) for distance, and, away from the poles and the antipode, for the round trip (travelling DistanceTo along BearingTo from A ends at B); every location x bearing x distance for destination / distance back / initial bearing; pole approach: 9 start latitudes on both hemispheres x 5 longitudes x travel along (and within 1e-6..1e-3 degree of) the meridian ending from 10 m short of to 10 m beyond the pole in 17 steps; haversine monotone along the sorted distance alphabet and metre round trip; normalisation on multiples and offsets of the circumference; semicircle round trip on a 2^16-point grid plus +-180, +-90; non-trivial = distinct locations / positive distance"
+	r.Rule = "full product of the listed alphabets: every ordered pair of locations (plus the exact antipode of every location, and exact antipodal pairs at every thousandth of a degree of latitude x 6 longitudes, journeys ending a millimetre short of the antipode from every hundredth of a degree x 24 bearings) for distance, and, away from the poles and the antipode, for the round trip (travelling DistanceTo along BearingTo from A ends at B); every location x bearing x distance for destination / distance back / initial bearing; pole approach: 9 start latitudes on both hemispheres x 5 longitudes x travel along (and within 1e-6..1e-3 degree of) the meridian ending from 10 m short of to 10 m beyond the pole in 17 steps; haversine monotone along the sorted distance alphabet and metre round trip; normalisation on multiples and offsets of the circumference; semicircle round trip on a 2^16-point grid plus +-180, +-90; non-trivial = distinct locations / positive distance"
 	r.Assume = []string{"sphere radius 6371e3 m (the library's constant)", "reference: unit vectors + atan2 (verif/mc/sphere); tolerances as stated in C15", "decided on the numeric lattice only"}
 	type loc struct{ lat, lon float64 }
 	var locs []loc
@@ -251,6 +251,30 @@ func runC15(r *rt.Run) {
 		}
 		w.Flush()
 	}
+	// exact antipodes at every thousandth of a degree of latitude (the place
+	// where the haversine is 1 up to rounding)
+	r.ParFor(90001, func(i int, w *rt.Worker) {
+		lat := float64(i) / 1000
+		if i%10 == 0 {
+			// journeys that end a millimetre short of the antipode, every 15 degrees of bearing
+			for b := 0.0; b < 360; b += 15 {
+				w.Trans++
+				geoRun(w, "destination", lat, 20, piR-0.001, b)
+				geoRun(w, "destination", -lat, -160.5, piR-0.001, b)
+			}
+		}
+		for _, lon := range []float64{0, 10.5, -77.03, 151.2, 179.99, -180} {
+			alon := lon + 180
+			if alon > 180 {
+				alon -= 360
+			}
+			for _, sg := range []float64{1, -1} {
+				w.Trans++
+				w.Nontriv++
+				geoRun(w, "distance-pair", sg*lat, lon, -sg*lat, alon)
+			}
+		}
+	})
 	w := r.Worker()
 	sd := append([]float64(nil), dists...)
 	sd = append(sd, piR)
